@@ -10,7 +10,8 @@ PROP = dict(
          'invocations interact with the kernel; distinct by the whole input',
     explanation='Coq evaluates the abstract interleaving machine of Model/Conc.v on the same schedule (final table as a '
                 'multiset, both call sequences, both results) and the property predicate "final table = some serial outcome"',
-    assumptions=['atomicity at the granularity of the kernel interactions (table read, mount(2), umount(2)); file-system '
+    assumptions=['constants regenerated from the source on every run (Gen/Consts.v) that the predicate or the documented part of the model rests on -- LayerconfigFile -- are compared with literals by theorem C20_constants_pinned: an edit of one of them is reported (proof obligation no longer checks) and has to be reviewed; values the manual does not state are the values of the reviewed tree',
+        'atomicity at the granularity of the kernel interactions (table read, mount(2), umount(2)); file-system '
                  'operations in between are not interleaved', 'imports in C20 worlds are non-recursive (a mount adds exactly '
                  'its target)', 'real parallelism of two processes is represented by the schedule'],
 )
